@@ -279,6 +279,7 @@ Proof.
   match type of H with context [retain_update ?s _ _ _] => set (st1 := s) in * end.
   assert (HI1 : CInv st1) by (eapply cinv_view; [|exact HI]; reflexivity).
   destruct (negb (utf8_valid _)); [inv_ok; split; [exact HI1|apply dl_le_refl]|].
+  match type of H with (if ?b then _ else _) = _ => destruct b end; [inv_ok; split; [exact HI1|apply dl_le_refl]|].
   apply bind_ok in H as ([st3 idxs] & H3 & H). apply bind_ok in H as (st4 & H4 & H).
   match type of H3 with dl_matches (retain_update _ ?t ?p ?pr) _ = _ => destruct (retain_update_cinv st1 t p pr HI1) as [HI2 L2] end.
   destruct (dl_matches_cinv _ _ _ _ HI2 H3) as [HI3 L3].
